@@ -3,6 +3,8 @@ From Coq Require Import ZArith List Bool Lia ZifyBool.
 From ArmV Require Import Lib.PyZ Spec.Pseudocode Spec.Expected Proofs.BitLemmas Proofs.SpecFacts Proofs.BitsOps.
 From Gen Require Import bits_ops.
 Open Scope Z_scope.
+(* a sentence that runs this long no longer matches the code it was written for: fail instead of searching *)
+Set Default Timeout 240.
 Ltac Zify.zify_post_hook ::= Z.to_euclidean_division_equations.
 
 Lemma bit_le1 x i : 0 <= bit x i <= 1.
